@@ -23,6 +23,7 @@ typedef struct {
     WSeq seq[W_MAXSEQ]; int nseq;
     WCtx ctx[W_MAXCTX]; int nctx;
     int started;
+    int dis[2];                 /* owner / endorsement hierarchy disabled by HierarchyControl */
     long ops, ok;
     uint32_t last_cc; uint32_t last_rc; long last_stores;
 } World;
@@ -35,7 +36,7 @@ static void w_reset(World *w) {
 static void w_on_reset(World *w) {
     w->nobj = 0; w->nsess = 0; w->nseq = 0;
     for (int i = 0; i < w->nctx; i++) free(w->ctx[i].p);
-    w->nctx = 0; w->platformAuth[0] = 0;
+    w->nctx = 0; w->platformAuth[0] = 0; w->dis[0] = w->dis[1] = 0;
 }
 static Rsp w_run(World *w, Buf *b) {
     uint32_t cc = b->n >= 10 ? g32(b->p + 6) : 0;
@@ -294,9 +295,96 @@ static void op_use_key(World *w, Buf *b) {
     w_run(w, b);
 }
 
+/* ---- administrative commands that change seeds, proofs, enables, audit configuration, the PP list; child objects ---- */
+#define CC_SetCommandCodeAuditStatus 0x140
+#define CC_PP_Commands 0x127
+#define CC_GetCommandAuditDigest 0x133
+static int g_gen_host_rng_ok;   /* scenarios without a twin-run oracle may create children whose keys come from the crypto library's generator */
+static void w_drop_objects(World *w, uint32_t hier) {
+    for (int i = 0; i < w->nobj; ) if ((uint32_t)w->obj[i].hier == hier) w->obj[i] = w->obj[--w->nobj]; else i++;
+}
+static void w_drop_pers(World *w, int platform) {
+    for (int i = 0; i < w->npers; ) if ((w->pers[i] >= 0x81800000u) == (platform != 0)) w->pers[i] = w->pers[--w->npers]; else i++;
+}
+static void op_admin(World *w, Buf *b) {
+    int k = rnd(13);
+    if (k == 0) { /* TPM2_Clear by lockout or platform authorization */
+        uint32_t ah = chance(50) ? RH_LOCKOUT : RH_PLATFORM;
+        cmd_begin(b, ST_SESSIONS, CC_Clear); b_u32(b, ah); auth_pw_s(b, w_hauth(w, ah));
+        Rsp r = w_run(w, b);
+        if (r.rc == 0) { w->ownerAuth[0] = w->endorseAuth[0] = w->lockoutAuth[0] = 0; w->nnv = 0; w->dis[0] = w->dis[1] = 0; w_drop_objects(w, RH_OWNER); w_drop_objects(w, RH_ENDORSEMENT); w_drop_pers(w, 0); }
+    } else if (k == 1) { /* new endorsement / platform primary seed */
+        int eps = chance(50);
+        cmd_begin(b, ST_SESSIONS, eps ? CC_ChangeEPS : CC_ChangePPS); b_u32(b, RH_PLATFORM); auth_pw_s(b, w->platformAuth);
+        Rsp r = w_run(w, b);
+        if (r.rc == 0) { if (eps) { w->endorseAuth[0] = 0; w->dis[1] = 0; w_drop_objects(w, RH_ENDORSEMENT); } else { w_drop_objects(w, RH_PLATFORM); w_drop_pers(w, 1); } }
+    } else if (k < 5) { /* HierarchyControl: disabling (by the hierarchy's own or the platform authorization), enabling (platform only) */
+        uint32_t en = (uint32_t[]){RH_OWNER, RH_ENDORSEMENT, 0x4000000D /* PLATFORM_NV */}[rnd(3)];
+        int state = chance(65);
+        uint32_t ah = (state || en == 0x4000000D || chance(50)) ? RH_PLATFORM : en;
+        cmd_begin(b, ST_SESSIONS, CC_HierarchyControl); b_u32(b, ah); auth_pw_s(b, w_hauth(w, ah)); b_u32(b, en); b_u8(b, state);
+        Rsp r = w_run(w, b);
+        if (r.rc == 0 && en != 0x4000000D) { w->dis[en == RH_OWNER ? 0 : 1] = !state; if (!state) w_drop_objects(w, en); }
+    } else if (k < 8) { /* command audit configuration */
+        static const uint32_t ccs[] = {CC_NV_Write, CC_PCR_Extend, CC_GetRandom, CC_HierarchyChangeAuth, CC_ClockSet, CC_NV_Read, CC_StartAuthSession};
+        uint32_t ah = chance(70) ? RH_OWNER : RH_PLATFORM;
+        cmd_begin(b, ST_SESSIONS, CC_SetCommandCodeAuditStatus); b_u32(b, ah); auth_pw_s(b, w_hauth(w, ah));
+        int chg_alg = chance(20);
+        b_u16(b, chg_alg ? (chance(50) ? ALG_SHA1 : ALG_SHA384) : ALG_NULL);
+        int ns = chg_alg ? 0 : rnd(3), nc = chg_alg ? 0 : rnd(2);
+        b_u32(b, ns); for (int i = 0; i < ns; i++) b_u32(b, ccs[rnd(7)]);
+        b_u32(b, nc); for (int i = 0; i < nc; i++) b_u32(b, ccs[rnd(7)]);
+        w_run(w, b);
+    } else if (k == 8) { /* the list of commands that need physical presence */
+        static const uint32_t ccs[] = {CC_Clear, CC_ChangeEPS, CC_PCR_Allocate, CC_HierarchyControl, CC_ClearControl};
+        int pp = g_pp; g_pp = chance(85);
+        cmd_begin(b, ST_SESSIONS, CC_PP_Commands); b_u32(b, RH_PLATFORM); auth_pw_s(b, w->platformAuth);
+        int ns = rnd(2), nc = rnd(3);
+        b_u32(b, ns); for (int i = 0; i < ns; i++) b_u32(b, ccs[rnd(5)]);
+        b_u32(b, nc); for (int i = 0; i < nc; i++) b_u32(b, ccs[rnd(5)]);
+        w_run(w, b); g_pp = pp;
+    } else if (k == 9) { uint32_t ah = chance(60) ? RH_OWNER : RH_PLATFORM;
+        cmd_begin(b, ST_SESSIONS, CC_NV_GlobalWriteLock); b_u32(b, ah); auth_pw_s(b, w_hauth(w, ah)); w_run(w, b);
+    } else if (k == 10) { /* the command audit digest, unsigned: reading it resets it */
+        cmd_begin(b, ST_SESSIONS, CC_GetCommandAuditDigest); b_u32(b, RH_ENDORSEMENT); b_u32(b, RH_NULL);
+        b_u32(b, 18); b_u32(b, RS_PW); b_u16(b, 0); b_u8(b, 0); b_2b(b, w->endorseAuth, strlen(w->endorseAuth)); b_u32(b, RS_PW); b_u16(b, 0); b_u8(b, 0); b_u16(b, 0);
+        b_put32(b, 18, (uint32_t)(9 + strlen(w->endorseAuth) + 9));
+        b_2b(b, "q", 1); b_u16(b, ALG_NULL);
+        w_run(w, b);
+    } else { /* a child of a storage primary: Create, then Load */
+        WObj *par = NULL; for (int i = 0; i < w->nobj; i++) if (w->obj[i].kind == 3) par = &w->obj[i];
+        if (!par || w->nobj >= 3) return;
+        /* keyedhash or symcipher children only: their secrets come from the TPM's own DRBG (part of the state), whereas ECC/RSA
+           children are generated with the crypto library's generator, which the twin-run oracle could not compare */
+        Buf t = {0}; int kind = rnd(g_gen_host_rng_ok ? 3 : 2);
+        if (kind == 0) tmpl_keyedhash(&t, NULL, 0); else if (kind == 1) tmpl_symcipher(&t, NULL, 0); else tmpl_ecc_sign(&t, 0, NULL, 0);
+        const char *pauth = chance(90) ? "k" : "";
+        cmd_begin(b, ST_SESSIONS, CC_Create); b_u32(b, par->h); auth_pw_s(b, pauth);
+        b_u16(b, 4 + 1); b_2b(b, "c", 1); b_u16(b, 0); b_2b(b, t.p, t.n); b_u16(b, 0); b_u32(b, 0); b_free(&t);
+        Rsp r = w_run(w, b);
+        if (r.rc != 0) return;
+        Rd rd = rsp_params(&r, 0); uint16_t prl, pul; const uint8_t *priv = r_2b(&rd, &prl); const uint8_t *pub = r_2b(&rd, &pul);
+        if (rd.err) return;
+        /* the Load goes through the caller's buffer: callers treat `b` as the last command sent */
+        Buf l = {0}; b_2b(&l, priv, prl); b_2b(&l, pub, pul);
+        uint32_t parent = par->h;
+        cmd_begin(b, ST_SESSIONS, CC_Load); b_u32(b, parent); auth_pw_s(b, pauth); b_bytes(b, l.p, l.n); b_free(&l);
+        Rsp r2 = w_run(w, b);
+        if (r2.rc == 0 && r2.len >= 14) { WObj *o = &w->obj[w->nobj++]; o->h = g32(r2.p + 10); o->kind = kind == 0 ? 1 : kind == 1 ? 2 : 0; o->hier = par->hier; o->persistent = 0; }
+    }
+}
+
+/* hierarchies disabled by HierarchyControl come back at any Reset/Restart: a comparison across such a restart first enables
+   them again (callers work on a snapshot that is restored afterwards) */
+static void w_enable_hierarchies(World *w, Buf *b) {
+    for (int k = 0; k < 2; k++) if (w->dis[k]) {
+        cmd_begin(b, ST_SESSIONS, CC_HierarchyControl); b_u32(b, RH_PLATFORM); auth_pw_s(b, w->platformAuth); b_u32(b, k == 0 ? RH_OWNER : RH_ENDORSEMENT); b_u8(b, 1);
+        if (run(b).rc == 0) w->dis[k] = 0; }
+}
+
 /* one random state-building op */
 static void gen_op(World *w, Buf *b) {
-    switch (rnd(24)) {
+    switch (rnd(26)) {
     case 0: case 1: op_create_primary(w, b); break;
     case 2: op_flush_object(w, b); break;
     case 3: op_evict(w, b); break;
@@ -311,6 +399,7 @@ static void gen_op(World *w, Buf *b) {
     case 17: case 18: op_pcr(w, b); break;
     case 19: case 20: op_hierarchy(w, b); break;
     case 21: op_use_key(w, b); break;
+    case 24: case 25: op_admin(w, b); break;
     default: op_misc(w, b); break;
     }
 }
@@ -327,6 +416,7 @@ static void batt_add(EVP_MD_CTX *md, Buf *b, int strip_time) {
 static void battery(World *w, Buf *b, int mode, uint8_t out[32]) {
     EVP_MD_CTX *md = EVP_MD_CTX_new(); EVP_DigestInit_ex(md, EVP_sha256(), NULL);
     int save_trace = 0; (void)save_trace;
+    if (g_resp_dump) fprintf(g_resp_dump, "battery mode=%d\n", mode);
     if (mode == 0) {
         static const uint32_t caps[][2] = { {0, 0}, {1, 0x02000000}, {1, 0x03000000}, {1, 0x80000000}, {1, 0x81000000}, {1, 0x01000000}, {1, 0x40000000}, {1, 0},
                                             {2, 0x11f}, {3, 0x11f}, {4, 0x11f}, {5, 0}, {7, 0}, {8, 0}, {9, 0x40000001} };
@@ -343,6 +433,34 @@ static void battery(World *w, Buf *b, int mode, uint8_t out[32]) {
         for (unsigned i = 0; i < 2; i++) { cmd_begin(b, ST_NO_SESSIONS, CC_GetCapability); b_u32(b, caps[i][0]); b_u32(b, caps[i][1]); b_u32(b, 200); batt_add(md, b, 0); }
         /* DA parameters (not the counter), disableClear etc. */
         for (uint32_t pt = 0x200 + 15; pt <= 0x200 + 17; pt++) { cmd_begin(b, ST_NO_SESSIONS, CC_GetCapability); b_u32(b, 6); b_u32(b, pt); b_u32(b, 1); batt_add(md, b, 0); }
+        /* TPM_PT_PERMANENT without inLockout (the failure count may legitimately move at an unorderly restart) */
+        { cmd_begin(b, ST_NO_SESSIONS, CC_GetCapability); b_u32(b, 6); b_u32(b, 0x200); b_u32(b, 1); b_put32(b, 2, (uint32_t)b->n); Rsp r = run_raw(b->p, (uint32_t)b->n);
+          uint32_t v = (r.rc == 0 && r.len >= 27) ? (g32(r.p + 23) & ~(1u << 9)) : 0xFFFFFFFFu; EVP_DigestUpdate(md, &v, 4);
+          if (g_resp_dump) fprintf(g_resp_dump, "batt permanent -> %08x\n", v); }
+        /* audit configuration, the physical-presence list, the hierarchy policies */
+        cmd_begin(b, ST_NO_SESSIONS, CC_GetCapability); b_u32(b, 4); b_u32(b, 0x11f); b_u32(b, 200); batt_add(md, b, 0);
+        cmd_begin(b, ST_NO_SESSIONS, CC_GetCapability); b_u32(b, 3); b_u32(b, 0x11f); b_u32(b, 200); batt_add(md, b, 0);
+        { static const uint32_t ph[3] = {RH_OWNER, RH_LOCKOUT, RH_ENDORSEMENT};
+          for (int k = 0; k < 3; k++) { cmd_begin(b, ST_NO_SESSIONS, CC_GetCapability); b_u32(b, 9); b_u32(b, ph[k]); b_u32(b, 1); batt_add(md, b, 0); } }
+        /* lockoutAuth: a policy session takes it through PolicySecret (no other effect when it is right) */
+        { uint8_t nonce[16] = {0};
+          cmd_begin(b, ST_NO_SESSIONS, CC_StartAuthSession); b_u32(b, RH_NULL); b_u32(b, RH_NULL); b_2b(b, nonce, 16); b_u16(b, 0); b_u8(b, 1); b_u16(b, ALG_NULL); b_u16(b, ALG_SHA256);
+          Rsp r = run(b);
+          if (r.rc == 0 && r.len >= 14) { uint32_t sh = g32(r.p + 10);
+              cmd_begin(b, ST_SESSIONS, CC_PolicySecret); b_u32(b, RH_LOCKOUT); b_u32(b, sh); auth_pw_s(b, w->lockoutAuth); b_u16(b, 0); b_u16(b, 0); b_u16(b, 0); b_u32(b, 0);
+              b_put32(b, 2, (uint32_t)b->n); Rsp pr = run_raw(b->p, (uint32_t)b->n); EVP_DigestUpdate(md, &pr.rc, 4);
+              if (g_resp_dump) fprintf(g_resp_dump, "batt lockoutauth -> %x\n", pr.rc);
+              cmd_begin(b, ST_NO_SESSIONS, CC_FlushContext); b_u32(b, sh); run(b); } }
+    }
+    if (mode != 0) {   /* seeds and proofs: a primary made from a fixed template (Name from the seed, creation ticket from the proof) */
+        static const uint32_t hs[2] = {RH_OWNER, RH_ENDORSEMENT};
+        for (int k = 0; k < 2; k++) { Buf t = {0}; tmpl_keyedhash(&t, NULL, 0);
+            cmd_begin(b, ST_SESSIONS, CC_CreatePrimary); b_u32(b, hs[k]); auth_pw_s(b, w_hauth(w, hs[k])); b_u16(b, 4); b_u16(b, 0); b_u16(b, 0); b_2b(b, t.p, t.n); b_u16(b, 0); b_u32(b, 0); b_free(&t);
+            b_put32(b, 2, (uint32_t)b->n); Rsp r = run_raw(b->p, (uint32_t)b->n);
+            /* everything but the transient handle the object happened to get */
+            EVP_DigestUpdate(md, &r.len, 4); EVP_DigestUpdate(md, r.p, r.len < 10 ? r.len : 10); if (r.len > 14) EVP_DigestUpdate(md, r.p + 14, r.len - 14);
+            if (g_resp_dump) { fprintf(g_resp_dump, "batt seedprobe hier=%x -> ", hs[k]); for (uint32_t i = 0; i < r.len; i++) fprintf(g_resp_dump, "%02x", r.p[i]); fputc('\n', g_resp_dump); }
+            if (r.rc == 0 && r.len >= 14) { cmd_begin(b, ST_NO_SESSIONS, CC_FlushContext); b_u32(b, g32(r.p + 10)); run(b); } }
     }
     for (int i = 0; i < w->npers; i++) { cmd_begin(b, ST_NO_SESSIONS, CC_ReadPublic); b_u32(b, w->pers[i]); batt_add(md, b, 0); }
     for (int i = 0; i < w->nnv; i++) {
